@@ -89,6 +89,43 @@ type replayer struct {
 	doc     *replayDoc
 	imports map[string]string // path -> name
 	values  map[T]string
+	extra   string // extra constraints that keep the model small
+}
+
+// preferSmall looks for a model in which every string and slice reachable
+// from the parameters is short; it falls back to the unconstrained model.
+func (rp *replayer) preferSmall() {
+	var cs []T
+	init := &State{guard: "true", cells: map[*Cell]Val{}, heaps: map[string]T{}, alloc: "0"}
+	var walk func(v Val, depth int)
+	walk = func(v Val, depth int) {
+		switch v.sh.kind {
+		case KStr:
+			cs = append(cs, le(v.strLen(), "40"))
+		case KSlice:
+			cs = append(cs, le(v.slLen(), "40"), le(v.slCap(), "64"))
+		case KStruct:
+			for i := range v.sh.fields {
+				walk(v.field(i), depth)
+			}
+		case KPtr:
+			if depth < 2 && v.ptr == nil && v.sh.elem != nil && v.sh.elem.kind == KStruct {
+				walk(rp.fx.loadObj(init, v.sh.elem, v.ts[0]), depth+1)
+			}
+		}
+	}
+	for _, p := range rp.fx.entryParams {
+		walk(p.v, 0)
+	}
+	if len(cs) == 0 {
+		return
+	}
+	extra := "(assert " + and(cs...) + ")\n"
+	q := rp.fx.query(rp.o) + extra
+	res := runSolversText(q, 10, []string{"z3-new"})
+	if res.Status == "sat" {
+		rp.extra = extra
+	}
 }
 
 // getValues asks the solver for the values of the given terms in a model of
@@ -102,6 +139,7 @@ func (rp *replayer) getValues(terms []T) map[T]string {
 	var b strings.Builder
 	b.WriteString("(set-option :produce-models true)\n")
 	b.WriteString(q)
+	b.WriteString(rp.extra)
 	b.WriteString("(check-sat)\n(get-value (")
 	for _, t := range terms {
 		b.WriteString(t)
@@ -305,6 +343,54 @@ func (rp *replayer) concretize(v Val, t types.Type, own *types.Package) string {
 			parts = append(parts, strconv.FormatInt(b, 10))
 		}
 		return fmt.Sprintf("append(make(%s, 0, %d), %s{%s}...)", rp.typeStr(t, own), hdr[2], rp.typeStr(t, own), strings.Join(parts, ", "))
+	case KPtr:
+		if v.ptr != nil || v.sh.elem == nil {
+			unsupp("interior pointer parameter is not replayable")
+		}
+		if rp.intOf(v.ts[0]) == 0 {
+			return "nil"
+		}
+		pt, ok := t.Underlying().(*types.Pointer)
+		if !ok {
+			unsupp("pointer parameter of type %s", t)
+		}
+		obj := fx.loadObj(init, v.sh.elem, v.ts[0])
+		inner := rp.concretize(obj, pt.Elem(), own)
+		if v.sh.elem.kind == KStruct {
+			return "&" + inner
+		}
+		return fmt.Sprintf("func() %s { x := %s; return &x }()", rp.typeStr(t, own), inner)
+	case KStruct:
+		st, ok := t.Underlying().(*types.Struct)
+		if !ok {
+			unsupp("struct value of type %s", t)
+		}
+		var parts []string
+		for i := 0; i < st.NumFields(); i++ {
+			f := st.Field(i)
+			if !f.Exported() && f.Pkg() != own {
+				continue // unexported field of another package: zero value
+			}
+			fv := v.field(i)
+			var lit string
+			func() {
+				defer func() {
+					if r := recover(); r != nil {
+						lit = "" // not expressible: leave the zero value
+					}
+				}()
+				lit = rp.concretize(fv, f.Type(), own)
+			}()
+			if lit != "" {
+				parts = append(parts, f.Name()+": "+lit)
+			}
+		}
+		return rp.typeStr(t, own) + "{" + strings.Join(parts, ", ") + "}"
+	case KIface:
+		if rp.intOf(v.ifTyp()) == 0 {
+			return "nil"
+		}
+		unsupp("non-nil interface parameter is not replayable")
 	case KOpaque:
 		switch v.sh.key {
 		case "net/netip.Addr":
@@ -352,6 +438,7 @@ func (rp *replayer) run() {
 	}
 	own := fn.Pkg.Pkg
 	rp.imports = map[string]string{"fmt": "fmt", "testing": "testing", "os": "os"}
+	rp.preferSmall()
 	var args []string
 	for i, p := range fn.Params {
 		ge := rp.concretize(fx.entryParams[i].v, p.Type(), own)
